@@ -75,9 +75,11 @@ def with_crash(mix, n):
 # with a 130 s limit
 # the enumerated phase is ONE update by one client, so that the image budget is never exhausted: every I/O step of
 # the generated update is a checked crash point (concurrent crash scenarios are the business of the 'faults' batches)
-ENUM = dict(phases=1, enum=1, enum_clients=1, enum_ops=1, ops_per_client=2, content='pool', between=1, max_images=72)
+ENUM = dict(phases=1, enum=1, enum_clients=1, enum_ops=1, ops_per_client=2, content='pool', between=1, max_images=140)
 # a forked process costs 0.5-5 s of copy-on-write faults in this VM: the real kills are a small batch of their own
-REAL_KILL = dict(phases=1, enum=0, calibrate=2, content='pool', between=1)
+# (one real kill costs ~2.5 s unloaded; the run server executes 20 runs per forked child within 130 s, so only one
+# run in four does a real kill)
+REAL_KILL = dict(phases=1, enum=0, calibrate=0, real_kill=(1, 4), content='pool', between=1)
 
 PROPS = {
     'C07': dict(
@@ -95,8 +97,8 @@ PROPS = {
             store('fault-free', 160, 1600, prop='C07', **C07_MIX),
             store('crash-enum', 100, 1000, prop='C07', **ENUM, **{k: v for k, v in C07_MIX.items() if k != 'content'}),
             store('crash-enum-cross-device', 40, 400, prop='C07', exdev=True, **ENUM, **{k: v for k, v in C07_MIX.items() if k != 'content'}),
-            store('real-kill-calibration', 12, 120, prop='C07', **REAL_KILL, **{k: v for k, v in C07_MIX.items() if k != 'content'}),
-            store('real-kill-calibration-cross-device', 8, 80, prop='C07', exdev=True, **REAL_KILL, **{k: v for k, v in C07_MIX.items() if k != 'content'}),
+            store('real-kill-calibration', 48, 480, prop='C07', **REAL_KILL, **{k: v for k, v in C07_MIX.items() if k != 'content'}),
+            store('real-kill-calibration-cross-device', 24, 240, prop='C07', exdev=True, **REAL_KILL, **{k: v for k, v in C07_MIX.items() if k != 'content'}),
             store('faults', 140, 1400, prop='C07', crash_mid=(1, 6), enospc=(1, 150), **FAULTS,
                   **{k: v for k, v in with_crash(C07_MIX, 3).items()}),
             store('faults-cross-device', 40, 400, prop='C07', exdev=True, crash_mid=(1, 6), enospc=(1, 60), **FAULTS,
